@@ -1,4 +1,5 @@
 """C08 — statements land in exactly the graphs their graph maps name."""
+import json
 from .. import family, mapcase
 
 PROPS_FILES = ['theories/Props/C08.v']
@@ -33,6 +34,16 @@ def gen_graph_case(rng):
             for i in range(len(r)):
                 if rng.random() < 0.15:
                     r[i] = None
+    if rng.random() < 0.25 and c['doc'][0]['subj']['k'] != 'quoted':
+        # a second triples map with the very same subject map (rendered as ONE shared subject-map resource by some spellings)
+        import copy
+        t2 = copy.deepcopy(c['doc'][0])
+        t2['id'] = EX + 'tm/TMshared'
+        t2['poms'] = t2['poms'][:1]
+        for p in t2['poms']:
+            p['preds'] = [mapcase.tm_const_iri(EX + 'p/shared')]
+            p['graphs'] = [] if rng.random() < 0.5 else p['graphs']
+        c['doc'].append(t2)
     return c
 
 
@@ -50,11 +61,26 @@ def features(case):
     return f
 
 
+def style_fn(c):
+    import hashlib
+    h = int(hashlib.md5(json.dumps(c['doc'], sort_keys=True).encode()).hexdigest(), 16)
+    if h % 4 == 1 and mapcase.yarrrml_ok(c):
+        return mapcase.Style(vocab='yarrrml')
+    if h % 4 in (2, 3):
+        st = mapcase.Style(shortcut=False)
+        st.share_sm = {}
+        return st
+    return None
+
+
 def run(ctx, res):
     res.rule = ('mappings with 0-3 constant / template / reference graph maps (and rr:defaultGraph) on subject maps and on predicate-object maps, classes, '
                 'NULL graph values, both output formats; every line of the implementation, fourth component included, against the Engine model and the Spec; '
                 'distinct = distinct case; non-trivial = non-empty prescribed result')
-    family.run_family(ctx, res, [gen_graph_case(ctx.rng) for _ in range(ctx.scale(160, 4000))], features)
+    # spellings: a quarter of the cases YARRRML can express is written in YARRRML (graphs as YAML lists), a quarter of the others with one
+    # shared subject-map resource per distinct subject map
+    family.run_family(ctx, res, [gen_graph_case(ctx.rng) for _ in range(ctx.scale(160, 4000))], features, style_fn=style_fn)
 
 
-replay = family.replay_family
+def replay(ctx, res, payload):
+    family.replay_family(ctx, res, payload, style_fn=style_fn)
